@@ -824,6 +824,10 @@ where
                     events.push(GenericEvent::NotifyPacketIdReleased(packet_id));
                 }
             }
+
+            // The session has ended. With offline publishing enabled the object keeps packets
+            // published until the next CONNECT, exactly like a newly created one.
+            self.need_store = self.offline_publish;
         }
 
         // Cancel all timers
@@ -900,7 +904,9 @@ where
     /// * `enable` - Whether to enable offline publishing
     pub fn set_offline_publish(&mut self, enable: bool) {
         self.offline_publish = enable;
-        if self.offline_publish {
+        // Packets published while disconnected have to be kept. An established connection keeps
+        // the persistence its CONNECT / CONNACK negotiated.
+        if self.offline_publish && self.status == ConnectionStatus::Disconnected {
             self.need_store = true;
         }
     }
